@@ -44,6 +44,7 @@ pub fn expand_position(
         .unwrap_or_else(|| info.clone());
 
     // increase position
+    let mut previous_amount = Uint128::zero();
     OPEN_POSITIONS.update::<_, ContractError>(
         deps.storage,
         receiver.sender.clone(),
@@ -56,14 +57,18 @@ pub fn expand_position(
                 .find(|position| position.unbonding_duration == unbonding_duration)
                 .ok_or(ContractError::NonExistentPosition { unbonding_duration })?;
 
+            previous_amount = pos.amount;
             pos.amount += amount;
 
             Ok(positions)
         },
     )?;
 
-    // add the weight to the global weight and the user's weight
-    let weight = calculate_weight(unbonding_duration, amount)?;
+    // add the weight to the global weight and the user's weight. The weight added is the difference
+    // between the weight of the expanded position and the weight of the position before, so the
+    // weight removed when the position is closed matches the sum of what was added
+    let weight = calculate_weight(unbonding_duration, previous_amount.checked_add(amount)?)?
+        .checked_sub(calculate_weight(unbonding_duration, previous_amount)?)?;
     GLOBAL_WEIGHT.update::<_, StdError>(deps.storage, |global_weight| {
         Ok(global_weight.checked_add(weight)?)
     })?;
